@@ -20,6 +20,8 @@ struct Result {
   std::vector<vh::WriteRec> writes; // writes that reached the output stream
   bytes payload;                    // concatenated payloads if requested
   size_t in_writes = 0;             // writes that reached the INPUT stream (must stay 0)
+  size_t bytes_written = 0;         // total bytes the code pushed at the output stream
+  size_t oversize_writes = 0;       // writes larger than 256 MiB (never legitimate with these inputs)
   bool in_changed = false;
   bool in_closed = false, out_closed = false;
 };
@@ -50,6 +52,8 @@ inline Result encrypt(const bytes &P, const EncParams &ep, int outbuf = -1 /* -1
   }
   r.out = out.data;
   r.writes = out.writes;
+  r.bytes_written = out.total_written;
+  r.oversize_writes = out.oversize_writes;
   r.payload = out.written_bytes;
   r.in_writes = in.writes.size();
   r.in_changed = in.data != P;
@@ -77,6 +81,8 @@ inline Result decrypt_or_verify(bool dec, const bytes &F, const uint8_t key_[16]
   if (!out.closed) fflush(fo);
   r.out = out.data;
   r.writes = out.writes;
+  r.bytes_written = out.total_written;
+  r.oversize_writes = out.oversize_writes;
   r.in_writes = in.writes.size();
   r.in_changed = in.data != F;
   r.in_closed = in.closed;
